@@ -414,7 +414,9 @@ def _slice_1d(dim_shape, lengths, index):
         istop = bisect.bisect_right(chunk_boundaries, stop)
 
         # the bound is not exactly tight; make it tighter?
-        istart = min(istart + 1, len(chunk_boundaries) - 1)
+        # (bisect_right: zero-width chunks repeat a boundary, and ``start`` then
+        # lives in the block after the last repeat, not after the first)
+        istart = min(max(istart + 1, bisect.bisect_right(chunk_boundaries, start)), len(chunk_boundaries) - 1)
         istop = max(istop - 1, -1)
 
         for i in range(istart, istop, -1):
